@@ -21,6 +21,7 @@ from __future__ import annotations
 
 import argparse
 import ast
+import builtins
 import importlib
 import json
 import os
@@ -296,8 +297,8 @@ class TrGw:
         if isinstance(s, ast.Expr) and isinstance(s.value, ast.Yield):
             if kind != "step":
                 raise Untranslatable("yield outside the listen loop")
-            if rest and not (len(strip(rest)) == 1 and isinstance(strip(rest)[0], ast.Continue)):
-                raise Untranslatable("code after the yield of an iteration")
+            if strip(rest) and not isinstance(strip(rest)[0], ast.Continue):
+                raise Untranslatable("code after the yield of an iteration")   # (what follows a `continue` never runs)
             if s.value.value is None:
                 raise Untranslatable("bare yield")
             pre, t, ty = self.expr(s.value.value)
@@ -375,7 +376,8 @@ class TrGw:
             elts = h.type.elts if isinstance(h.type, ast.Tuple) else [h.type]
             classes = []
             for e in elts:
-                if not isinstance(e, ast.Name) or e.id not in PYEXN or self.globals.get(e.id) is None:
+                cls = self.globals.get(e.id, getattr(builtins, e.id, None)) if isinstance(e, ast.Name) else None
+                if cls is None or e.id not in PYEXN or getattr(cls, "__name__", None) != e.id:
                     raise Untranslatable(f"except class {ast.unparse(e)[:30]} outside the model's vocabulary")
                 classes.append("." + e.id)
             hb = strip(h.body)
